@@ -2,7 +2,8 @@
 import collections, itertools, json, random
 from . import driver, core, model as _model, gen
 
-POOL7 = [b"user@mail.ru", b"user@a.abarth", "x@неправильный☕.рф".encode(), b"u@[1.2.3.4]", b"a..b@c.com", b'"a b"@iana.org', b""]
+POOL7 = [b"user@mail.ru", b"user@a.abarth", "x@неправильный☕.рф".encode(), b"u@[1.2.3.4]", b"a..b@c.com", b'"a b"@iana.org', b"",
+         b"u@\xff\xfe.com", b"u@xn--a-.example.org"]     # (name kept; 9 addresses: + ill-formed UTF-8 domain, bad Punycode)
 
 
 def new_part():
@@ -70,7 +71,23 @@ def failed_setup_reference(exe, env=None):
     return [tr[0][1][3], tr[0][2][2]]      # message of the 's' step, errcode of the 'm' step
 
 
-def check_trace(prog, trace, mdl, part, extra=False, idnmsgs=None, src="hist", fault=None, setup_ref=None):
+def cold_reference(exec_exe, pool, masks, env=None):
+    """Outcome of every (address, mode, tld_check, allow_tld) computed in a *new process per address* (cold static state, errno 0):
+    the history-free reference against which a long-lived process is compared."""
+    ref = {}
+    for i, a in enumerate(pool):
+        for mk in masks:
+            try:
+                r = driver.run_lines(exec_exe, [driver.A_line(a, sections=1, allow=mk)], env=env)[0]
+            except driver.DriverCrash:
+                continue
+            for k, h in r["hl"].items():
+                m, t = divmod(int(k), 2)
+                ref[(i, m, t, mk)] = h[:8]
+    return ref
+
+
+def check_trace(prog, trace, mdl, part, extra=False, idnmsgs=None, src="hist", fault=None, setup_ref=None, cold=None):
     """Monitor one trace. fault: None or dict(code=.., buf=..) when a fault was planned in this history."""
     cnt = part["counters"]
     INV = mdl.E("INVALID_RFC")
@@ -79,9 +96,10 @@ def check_trace(prog, trace, mdl, part, extra=False, idnmsgs=None, src="hist", f
     last_msg, last_err = None, None
     wit = {"history": " ".join(prog)}
     led = trace[-1][-1] == 1
+    create_failures = 0
     for op, st in zip(prog, trace[:-1]):
         kind = st[0]
-        if op[0] == "r" or op[0] == "F":
+        if op[0] == "r" or op[0] == "F" or op[0] == "C":
             continue
         if op[0] == "t":
             tld = int(op[1])
@@ -90,9 +108,19 @@ def check_trace(prog, trace, mdl, part, extra=False, idnmsgs=None, src="hist", f
         elif op == "s":
             rfc, sr = st[1], st[2]
             cnt["setup"] += 1
+            injected = len(st) > 5 and st[5] > create_failures
+            if len(st) > 5:
+                create_failures = st[5]
             if 0 <= rfc <= 3:
-                if sr != 0:
+                if injected:
+                    cnt["setup.create-failure-injected"] += 1
+                    if sr == 0:
+                        part["viol"].append(("setup/back-end-failure-ignored", wit, {"rfc": rfc, "ret": sr, "source": src}))
+                    confirmed = -1
+                    last_msg = None
+                elif sr != 0:
                     part["viol"].append(("setup/defined-mode-refused", wit, {"rfc": rfc, "ret": sr, "source": src}))
+                    confirmed = -1
                 else:
                     confirmed = rfc
             else:
@@ -145,6 +173,15 @@ def check_trace(prog, trace, mdl, part, extra=False, idnmsgs=None, src="hist", f
                     diff = [fields[i] for i in range(min(len(obs), len(fresh))) if obs[i] != fresh[i]] or ["shape"]
                     part["viol"].append(("history-dependence/%s" % "+".join(diff), wit,
                                          {"step": op, "reused_object": obs, "fresh_object": fresh, "source": src}))
+            if cold is not None and not fired:
+                cr = cold.get((idx, confirmed, tld, allow))
+                if cr is not None:
+                    cnt["cold.compared"] += 1
+                    if obs[:8] != cr:
+                        fields = ["ret", "errcode", "message", "is_ipv4", "is_ipv6", "is_domain", "rc", "idn_rc"]
+                        diff = [fields[i] for i in range(8) if obs[i] != cr[i]] or ["shape"]
+                        part["viol"].append(("history-dependence/vs-new-process/%s" % "+".join(diff), wit,
+                                             {"step": op, "long_lived_process": obs[:8], "new_process": cr, "source": src}))
             if led and live != expblocks:
                 part["viol"].append(("ledger/live-blocks-after-is_email/%+d" % (live - expblocks), wit,
                                      {"step": op, "live": live, "expected": expblocks, "source": src}))
